@@ -39,14 +39,26 @@ const (
 	bRecvAssign
 	bRecvInLiteral
 	bPanicRecover
+	bGotoLoop
+	bLabelLoops
+	bRangeString
+	bSwitchLoop
+	bIfaceLoop
+	bSelectSendOnly
+	bNilChan
+	bRecvExpr
+	bChanChan
 	bSleepLoop
+	bTimeAfter
 	nBodies
 )
 
 var bodyName = [...]string{"loop-tick", "count-loop", "recursion", "closure-loop", "method-loop", "funcval-loop",
 	"nested-call", "make-closure-loop", "send-block", "recv-block", "recv-cond", "recv2", "range-chan",
 	"select-recv-send", "select-default-loop", "select-empty", "ping-pong", "defer-literal", "defer-host",
-	"send-buffered-full", "select-many", "sort-callback", "strings-map-callback", "range-slice-loop", "recv-assign", "recv-in-literal", "panic-recover-loop", "sleep-loop"}
+	"send-buffered-full", "select-many", "sort-callback", "strings-map-callback", "range-slice-loop", "recv-assign", "recv-in-literal", "panic-recover-loop",
+	"goto-loop", "label-loops", "range-string-loop", "switch-loop", "iface-loop", "select-send-only", "nil-chan", "recv-expr", "chan-chan",
+	"sleep-loop", "time-after-loop"}
 
 // C09Prog is a generated program.
 type C09Prog struct {
@@ -214,6 +226,51 @@ func (g *c09Gen) actor(depth int) int {
 			fmt.Fprintf(&g.decl, "func pr%d(i int) (r int) {\n\tdefer func() {\n\t\tif e := recover(); e != nil {\n\t\t\tr = -1\n\t\t}\n\t}()\n\thost.Tick(%d)\n\t%s\n\treturn i\n}\n\n", id, id, raise)
 		}
 		p("\tfor i := 0; ; i++ {\n\t\tpr%d(i)\n\t}\n", id)
+	case bGotoLoop:
+		// a loop made of a label and a goto (no for statement: the back edge is a jump)
+		p("\ti := 0\nL%d:\n\thost.Tick(%d)\n\ti++\n\tif i > 0 {\n\t\tgoto L%d\n\t}\n", id, id, id)
+	case bLabelLoops:
+		p("outer%d:\n\tfor {\n\t\tfor j := 0; j < 4; j++ {\n\t\t\tif j == 2 {\n\t\t\t\tcontinue outer%d\n\t\t\t}\n\t\t\thost.Tick(%d)\n\t\t}\n\t}\n", id, id, id)
+	case bRangeString:
+		p("\tfor {\n\t\tfor i, r := range \"h\u00e9llo\" {\n\t\t\thost.Tick(%d + i*0 + int(r)*0)\n\t\t}\n\t}\n", id)
+	case bSwitchLoop:
+		p("\tfor i := 0; ; i++ {\n\t\tswitch i %% 3 {\n\t\tcase 0:\n\t\t\tfor j := 0; j < 2; j++ {\n\t\t\t\thost.Tick(%d)\n\t\t\t}\n\t\tcase 1:\n\t\t\thost.Tick(%d)\n\t\t\tfallthrough\n\t\tdefault:\n\t\t\thost.Tick(%d)\n\t\t}\n\t}\n", id, id, id)
+	case bIfaceLoop:
+		fmt.Fprintf(&g.decl, "type I%d interface{ step() int }\n\ntype S%d struct{ n int }\n\nfunc (s *S%d) step() int {\n\thost.Tick(%d)\n\ts.n++\n\treturn s.n\n}\n\n", id, id, id, id)
+		p("\tvar it I%d = &S%d{}\n\tfor {\n\t\tit.step()\n\t}\n", id, id)
+	case bSelectSendOnly:
+		p("\tc1 := make(chan int)\n\tc2 := make(chan string)\n\tselect {\n\tcase c1 <- 1:\n\t\thost.Tick(%d)\n\tcase c2 <- \"x\":\n\t\thost.Tick(%d)\n\t}\n\thost.Tick(%d)\n", 900+id, 900+id, 900+id)
+	case bNilChan:
+		switch g.tape.Choose(3) {
+		case 0:
+			p("\tvar c chan int\n\t<-c\n\thost.Tick(%d)\n", 900+id)
+		case 1:
+			p("\tvar c chan int\n\tc <- 1\n\thost.Tick(%d)\n", 900+id)
+		case 2:
+			p("\tvar c chan int\n\tselect {\n\tcase v := <-c:\n\t\thost.Tick(%d + v*0)\n\tcase c <- 2:\n\t\thost.Tick(%d)\n\t}\n\thost.Tick(%d)\n", 900+id, 900+id, 900+id)
+		}
+	case bRecvExpr:
+		// a blocking receive as an operand of a larger expression or statement
+		switch g.tape.Choose(6) {
+		case 0:
+			p("\tc := make(chan int)\n\thost.Tick(%d + (<-c)*0)\n", 900+id)
+		case 1:
+			p("\tc := make(chan int)\n\ta := []int{0, 0}\n\thost.Tick(%d + a[<-c])\n", 900+id)
+		case 2:
+			p("\tc := make(chan int)\n\td := make(chan int)\n\tx := <-c + <-d\n\thost.Tick(%d + x*0)\n", 900+id)
+		case 3:
+			p("\tc := make(chan int)\n\tif v, ok := <-c; ok || v == 0 {\n\t\thost.Tick(%d)\n\t}\n", 900+id)
+		case 4:
+			p("\tc := make(chan int)\n\td := make(chan int, 1)\n\td <- <-c\n\thost.Tick(%d)\n", 900+id)
+		case 5:
+			fmt.Fprintf(&g.decl, "func val%d() int {\n\thost.Tick(%d)\n\treturn 1\n}\n\n", id, id)
+			p("\tc := make(chan int)\n\tc <- val%d()\n\thost.Tick(%d)\n", id, 900+id)
+		}
+	case bChanChan:
+		p("\tcc := make(chan chan int)\n\tc := <-cc\n\tc <- 1\n\thost.Tick(%d)\n", 900+id)
+	case bTimeAfter:
+		g.sleeps = true
+		p("\tc := make(chan int)\n\tfor {\n\t\tselect {\n\t\tcase <-time.After(%d * time.Millisecond):\n\t\t\thost.Tick(%d)\n\t\tcase <-c:\n\t\t\thost.Tick(%d)\n\t\t}\n\t}\n", 1+g.tape.Choose(4), id, 900+id)
 	case bSleepLoop:
 		g.sleeps = true
 		p("\tfor {\n\t\ttime.Sleep(%d * time.Millisecond)\n\t\thost.Tick(%d)\n\t}\n", 1+g.tape.Choose(4), id)
